@@ -269,7 +269,7 @@ func cmdCheck(args []string) int {
 	{
 		var kept []*Obligation
 		for _, o := range obls {
-			if kindAllowed(prop, o.Kind) {
+			if kindAllowed(prop, o.Kind) || (strings.HasPrefix(o.Kind, "guard.") && e.hasTaggedGuard(prop)) {
 				kept = append(kept, o)
 			}
 		}
@@ -515,4 +515,15 @@ func kindAllowed(prop, kind string) bool {
 		return prop == "C20"
 	}
 	return true
+}
+
+func (e *Engine) hasTaggedGuard(prop string) bool {
+	for _, g := range e.guarded {
+		for _, p := range g.Props {
+			if p == prop {
+				return true
+			}
+		}
+	}
+	return false
 }
